@@ -1,7 +1,7 @@
 (* Limit/Limiter.v — executable model of
      internal/limiter/client_limiter.go   ClientLimiterOpts.setDefault, ClientLimiter.mask / AllowN / gc
      golang.org/x/time/rate               Limiter.AllowN -> reserveN -> advance   (float64 tokens)
-     app/router/limiter.go                cost table, resourceLimiter.AllowN, listener.Accept
+     app/router/limiter.go                cost table, resourceLimiter.AllowN, lim_listener.Accept
      app/router/server_*.go               the acceptance call sites (REFUSED / 503 / close)
 
    Units.  Time is an integer number of nanoseconds (Z).  Tokens are kept scaled by SCALE = 10^9
@@ -47,22 +47,22 @@ Definition init_client (cfg : opts) : option opts :=
 
 (* netip.Addr without zones: an IPv4 address (32 bit), an IPv6 address (128 bit; v4-mapped addresses are
    IPv6 addresses ::ffff:a.b.c.d), or the zero Addr (invalid). *)
-Inductive addr := A4 (a : N) | A6 (a : N) | ANone.
+Inductive lim_addr := LA4 (a : N) | LA6 (a : N) | LANone.
 
-Definition addr_eqb (x y : addr) : bool :=
+Definition addr_eqb (x y : lim_addr) : bool :=
   match x, y with
-  | A4 a, A4 b => (a =? b)%N
-  | A6 a, A6 b => (a =? b)%N
-  | ANone, ANone => true
+  | LA4 a, LA4 b => (a =? b)%N
+  | LA6 a, LA6 b => (a =? b)%N
+  | LANone, LANone => true
   | _, _ => false
   end.
 
 Definition two32 : N := 4294967296%N.
 
 (* Addr.Unmap *)
-Definition unmap (a : addr) : addr :=
+Definition lim_unmap (a : lim_addr) : lim_addr :=
   match a with
-  | A6 x => if (N.shiftr x 32 =? 65535)%N then A4 (N.land x 4294967295)%N else a
+  | LA6 x => if (N.shiftr x 32 =? 65535)%N then LA4 (N.land x 4294967295)%N else a
   | _ => a
   end.
 
@@ -70,18 +70,18 @@ Definition unmap (a : addr) : addr :=
 Definition mask_bits (w bits x : N) : N :=
   let sh := (w - bits)%N in N.shiftl (N.shiftr x sh) sh.
 
-(* netip.PrefixFrom(addr, bits).Masked().Addr(): the zero Addr when bits is outside 0..BitLen *)
-Definition prefix_addr4 (bits : Z) (x : N) : addr :=
-  if (0 <=? bits) && (bits <=? 32) then A4 (mask_bits 32 (Z.to_N bits) x) else ANone.
-Definition prefix_addr6 (bits : Z) (x : N) : addr :=
-  if (0 <=? bits) && (bits <=? 128) then A6 (mask_bits 128 (Z.to_N bits) x) else ANone.
+(* netip.PrefixFrom(lim_addr, bits).Masked().Addr(): the zero Addr when bits is outside 0..BitLen *)
+Definition prefix_addr4 (bits : Z) (x : N) : lim_addr :=
+  if (0 <=? bits) && (bits <=? 32) then LA4 (mask_bits 32 (Z.to_N bits) x) else LANone.
+Definition prefix_addr6 (bits : Z) (x : N) : lim_addr :=
+  if (0 <=? bits) && (bits <=? 128) then LA6 (mask_bits 128 (Z.to_N bits) x) else LANone.
 
 (* ClientLimiter.mask (o = the effective options) *)
-Definition mask_addr (o : opts) (a : addr) : addr :=
-  match unmap a with
-  | A4 x => prefix_addr4 (o_v4 o) x
-  | A6 x => prefix_addr6 (o_v6 o) x
-  | ANone => ANone
+Definition mask_addr (o : opts) (a : lim_addr) : lim_addr :=
+  match lim_unmap a with
+  | LA4 x => prefix_addr4 (o_v4 o) x
+  | LA6 x => prefix_addr6 (o_v6 o) x
+  | LANone => LANone
   end.
 
 (* ------------------------------------------------------------------ one bucket *)
@@ -113,18 +113,18 @@ Definition allow_bucket (rate burst : Z) (b : bucket) (now n : Z) : bool * bucke
 
 (* ------------------------------------------------------------------ the table *)
 
-Definition lim_table := list (addr * bucket).
+Definition lim_table := list (lim_addr * bucket).
 
-Fixpoint lim_lookup (k : addr) (t : lim_table) : option bucket :=
+Fixpoint lim_lookup (k : lim_addr) (t : lim_table) : option bucket :=
   match t with
   | [] => None
   | (k', b) :: t' => if addr_eqb k k' then Some b else lim_lookup k t'
   end.
 
-Definition lim_remove (k : addr) (t : lim_table) : lim_table :=
+Definition lim_remove (k : lim_addr) (t : lim_table) : lim_table :=
   filter (fun e => negb (addr_eqb k (fst e))) t.
 
-Definition lim_upsert (k : addr) (b : bucket) (t : lim_table) : lim_table := (k, b) :: lim_remove k t.
+Definition lim_upsert (k : lim_addr) (b : bucket) (t : lim_table) : lim_table := (k, b) :: lim_remove k t.
 
 (* gc at time now: lastSeen.Before(now - entryTtl) -> delete *)
 Definition lim_expired (now : Z) (b : bucket) : bool := b_seen b <? now - entry_ttl.
@@ -133,11 +133,11 @@ Definition lim_gc (now : Z) (t : lim_table) : lim_table := filter (fun e => negb
 (* ------------------------------------------------------------------ histories *)
 
 (* an arrival (time, client address, cost) or a run of the collector (environment step) *)
-Inductive lev := EvAllow (t : Z) (a : addr) (n : Z) | EvGc (t : Z).
+Inductive lev := EvAllow (t : Z) (a : lim_addr) (n : Z) | EvGc (t : Z).
 
 Definition ev_time (e : lev) : Z := match e with EvAllow t _ _ => t | EvGc t => t end.
 
-Definition lim_bucket_of (o : opts) (k : addr) (t : lim_table) (now : Z) : bucket :=
+Definition lim_bucket_of (o : opts) (k : lim_addr) (t : lim_table) (now : Z) : bucket :=
   match lim_lookup k t with Some b => b | None => lim_fresh (o_burst o) now end.
 
 (* ClientLimiter.AllowN / gc; o = effective options; output = the decision of an arrival *)
@@ -167,11 +167,11 @@ Fixpoint lim_decisions (o : opts) (t : lim_table) (h : list lev) : list (option 
   match h with [] => [] | e :: h' => snd (lim_step o t e) :: lim_decisions o (fst (lim_step o t e)) h' end.
 
 (* events that concern key k: its own arrivals, and every collector run *)
-Definition touches (o : opts) (k : addr) (e : lev) : bool :=
+Definition touches (o : opts) (k : lim_addr) (e : lev) : bool :=
   match e with EvAllow _ a _ => addr_eqb (mask_addr o a) k | EvGc _ => true end.
 
 (* the decisions taken for key k, in order *)
-Fixpoint lim_decisions_for (o : opts) (k : addr) (h : list lev) (ds : list (option bool)) : list bool :=
+Fixpoint lim_decisions_for (o : opts) (k : lim_addr) (h : list lev) (ds : list (option bool)) : list bool :=
   match h, ds with
   | e :: h', d :: ds' =>
       match e, d with
@@ -182,7 +182,7 @@ Fixpoint lim_decisions_for (o : opts) (k : addr) (h : list lev) (ds : list (opti
   end.
 
 (* total (unscaled) cost granted for key k at times within [t0, t1] *)
-Fixpoint lim_granted (o : opts) (k : addr) (t0 t1 : Z) (h : list lev) (ds : list (option bool)) : Z :=
+Fixpoint lim_granted (o : opts) (k : lim_addr) (t0 t1 : Z) (h : list lev) (ds : list (option bool)) : Z :=
   match h, ds with
   | e :: h', d :: ds' =>
       (match e, d with
@@ -202,9 +202,9 @@ Definition has_gc (h : list lev) : bool := existsb (fun e => match e with EvGc _
 
 (* the executable statement of the window bound for one history (the spec oracle of kind `limiter`):
    scaled cost granted for k in [t0,t1]  <  burst + rate*(t1 - t0) + one nanosecond of refill *)
-Definition bound_ok_ds (o : opts) (k : addr) (t0 t1 : Z) (h : list lev) (ds : list (option bool)) : bool :=
+Definition bound_ok_ds (o : opts) (k : lim_addr) (t0 t1 : Z) (h : list lev) (ds : list (option bool)) : bool :=
   lim_granted o k t0 t1 h ds * SCALE <=? o_burst o * SCALE + o_limit o * (t1 - t0) + (o_limit o - 1).
-Definition bound_ok (o : opts) (k : addr) (t0 t1 : Z) (h : list lev) : bool :=
+Definition bound_ok (o : opts) (k : lim_addr) (t0 t1 : Z) (h : list lev) : bool :=
   bound_ok_ds o k t0 t1 h (lim_decisions o [] h).
 
 (* ------------------------------------------------------------------ acceptance at the listeners *)
@@ -220,28 +220,28 @@ Definition costQuicConn : Z := 15.
 Definition costFromCache : Z := 1.
 Definition costFromUpstream : Z := 3.
 
-Inductive listener := LUdp | LTcp | LTls | LGnet | LHttp | LHttps | LFastHttp | LQuic.
+Inductive lim_listener := LmUdp | LmTcp | LTls | LGnet | LmHttp | LHttps | LFastHttp | LQuic.
 
 (* cost charged to the client's address when a connection is accepted *)
-Definition conn_cost (l : listener) : option Z :=
+Definition conn_cost (l : lim_listener) : option Z :=
   match l with
-  | LUdp => None
-  | LTcp => Some costTCPConn          (* tcpServer.run *)
+  | LmUdp => None
+  | LmTcp => Some costTCPConn          (* tcpServer.run *)
   | LTls => Some costTLSConn
   | LGnet => Some costTCPConn         (* gnetServer.OnOpen *)
-  | LHttp => Some costTCPConn         (* listener.Accept *)
+  | LmHttp => Some costTCPConn         (* lim_listener.Accept *)
   | LHttps => Some costTLSConn
   | LFastHttp => None                 (* startFastHttpServer never consults the limiter *)
   | LQuic => Some costQuicConn        (* quicServer.run *)
   end.
 
 (* cost checked before a query is handled *)
-Definition query_cost (l : listener) : option Z :=
+Definition query_cost (l : lim_listener) : option Z :=
   match l with
-  | LUdp => Some costUDPQuery         (* udpServer.handleMsg *)
-  | LTcp | LTls => Some costTCPQuery  (* tcpServer.handleConn *)
+  | LmUdp => Some costUDPQuery         (* udpServer.handleMsg *)
+  | LmTcp | LTls => Some costTCPQuery  (* tcpServer.handleConn *)
   | LGnet => None                     (* gnetServer.OnTraffic has no per-query check *)
-  | LHttp | LHttps => Some costHTTPQuery
+  | LmHttp | LHttps => Some costHTTPQuery
   | LFastHttp => None
   | LQuic => Some costQUICQuery       (* quicServer.handleConn *)
   end.
@@ -257,9 +257,9 @@ Inductive rl_res := RlOk | RlGlobal | RlClient.
 
 (* router.limiterAllowN + resourceLimiter.AllowN: an invalid address is never charged; the global bucket is
    charged first (and stays charged when the client bucket then refuses) *)
-Definition rl_allow (r : rl) (now : Z) (a : addr) (n : Z) : rl * rl_res :=
+Definition rl_allow (r : rl) (now : Z) (a : lim_addr) (n : Z) : rl * rl_res :=
   match a with
-  | ANone => (r, RlOk)
+  | LANone => (r, RlOk)
   | _ =>
     let g := match rl_global r with
              | Some (lim, b) => let x := allow_bucket lim lim b now n in (Some (lim, snd x), fst x)
@@ -277,7 +277,7 @@ Definition rl_allow (r : rl) (now : Z) (a : addr) (n : Z) : rl * rl_res :=
   end.
 
 (* what a client observes *)
-Inductive outcome :=
+Inductive lim_outcome :=
 | OAccepted        (* connection accepted *)
 | OConnClosed      (* connection closed at accept *)
 | OAnswered        (* query handled: forwarded (or served from cache), reply written *)
@@ -285,12 +285,12 @@ Inductive outcome :=
 | O503             (* HTTP status 503, nothing else done *)
 | OStreamClosed.   (* QUIC: stream closed without a reply *)
 
-Definition forwards (x : outcome) : bool := match x with OAnswered => true | _ => false end.
+Definition forwards (x : lim_outcome) : bool := match x with OAnswered => true | _ => false end.
 
 Definition rl_is_ok (x : rl_res) : bool := match x with RlOk => true | _ => false end.
 
-(* a connection from client [a] arrives at listener l *)
-Definition accept_conn (r : rl) (now : Z) (l : listener) (a : addr) : rl * outcome :=
+(* a connection from client [a] arrives at lim_listener l *)
+Definition accept_conn (r : rl) (now : Z) (l : lim_listener) (a : lim_addr) : rl * lim_outcome :=
   match conn_cost l with
   | None => (r, OAccepted)
   | Some c => let x := rl_allow r now a c in
@@ -298,17 +298,17 @@ Definition accept_conn (r : rl) (now : Z) (l : listener) (a : addr) : rl * outco
   end.
 
 (* the reply to a query the limiter refused *)
-Definition refusal (l : listener) : outcome :=
+Definition refusal (l : lim_listener) : lim_outcome :=
   match l with
-  | LUdp | LTcp | LTls => ORefused
-  | LHttp | LHttps => O503
+  | LmUdp | LmTcp | LTls => ORefused
+  | LmHttp | LHttps => O503
   | LQuic => OStreamClosed
   | LGnet | LFastHttp => ORefused      (* unreachable: query_cost = None *)
   end.
 
-(* a query from client [a] arrives at listener l; [hit] = answered from the cache.
+(* a query from client [a] arrives at lim_listener l; [hit] = answered from the cache.
    After acceptance handleReq charges costFromCache / costFromUpstream and ignores the result. *)
-Definition accept_query (r : rl) (now : Z) (l : listener) (a : addr) (hit : bool) : rl * outcome :=
+Definition accept_query (r : rl) (now : Z) (l : lim_listener) (a : lim_addr) (hit : bool) : rl * lim_outcome :=
   let x := match query_cost l with
            | Some c => rl_allow r now a c
            | None => (r, RlOk)
@@ -317,16 +317,16 @@ Definition accept_query (r : rl) (now : Z) (l : listener) (a : addr) (hit : bool
   then (fst (rl_allow (fst x) now a (if hit then costFromCache else costFromUpstream)), OAnswered)
   else (fst x, refusal l).
 
-Inductive aev := AConn (l : listener) (a : addr) | AQuery (l : listener) (a : addr) (hit : bool).
+Inductive aev := AConn (l : lim_listener) (a : lim_addr) | AQuery (l : lim_listener) (a : lim_addr) (hit : bool).
 
-Definition listener_step (r : rl) (now : Z) (e : aev) : rl * outcome :=
+Definition listener_step (r : rl) (now : Z) (e : aev) : rl * lim_outcome :=
   match e with
   | AConn l a => accept_conn r now l a
   | AQuery l a hit => accept_query r now l a hit
   end.
 
-(* a script of listener events, all at time [now] (the e2e scenario is shorter than one refill) *)
-Fixpoint listener_run (r : rl) (now : Z) (es : list aev) : list outcome :=
+(* a script of lim_listener events, all at time [now] (the e2e scenario is shorter than one refill) *)
+Fixpoint listener_run (r : rl) (now : Z) (es : list aev) : list lim_outcome :=
   match es with
   | [] => []
   | e :: es' => snd (listener_step r now e) :: listener_run (fst (listener_step r now e)) now es'
